@@ -122,6 +122,20 @@ def run(tier, seed):
         streams = []
         if m:
             streams.append(''.join('%02x' % m[b] for b in rb))
+        # the candidate limbs the solver chose at the loop head, turned into the block that produces them: value = limbs * 2^-256 mod n
+        m2, _ = smt.get_model(pre + '\n' + goals[i][2], ['n%d' % x for x in hv_m])
+        if m2:
+            Sm = unlimbs([m2['n%d' % x] for x in hv_m])
+            if Sm < N:
+                v = Sm * pow(R, -1, N) % N
+                for blk in (v, v + N if v + N < 2**256 else v):
+                    streams.append('%064x' % blk + '%064x' % 5)
+                    streams.append('00' * 32 + '%064x' % blk + '%064x' % 7)
+        for k_ in (1, 2**63, 2**64 - 1):   # candidates whose Montgomery form is a single high / low limb
+            for sh in (192, 128, 64, 0):
+                v = (k_ << sh) % N * pow(R, -1, N) % N
+                if v:
+                    streams.append('%064x' % v + '%064x' % 9)
         battery(ck, goals[i][0].split('.')[1], goals[i][1] + ' fails', streams)
 
     # ---- bounded unrolling: reachability witness for k draws ----
